@@ -10,6 +10,7 @@ import (
 	"time"
 
 	ae "github.com/godaddy/asherah/go/appencryption"
+	"github.com/godaddy/asherah/go/appencryption/pkg/persistence"
 	"github.com/godaddy/asherah/go/appencryption/pkg/crypto/aead"
 	"github.com/godaddy/asherah/go/appencryption/pkg/kms"
 	aelog "github.com/godaddy/asherah/go/appencryption/pkg/log"
@@ -486,7 +487,25 @@ func (x *envExec) do(op EnvOp) (ob EnvObs) {
 			before := append([]byte(nil), arena...)
 			cp := arena[:len(pl):len(arena)]
 			ob.Part = gen.H(x.sessPart[op.S])
-			rec, err := x.sessions[op.S].Encrypt(ctx, cp)
+			var rec *ae.DataRowRecord
+			var err error
+			if op.Payload%3 == 0 {
+				// through Session.Store with a Storer that keeps the record: same observables as Encrypt
+				var kept ae.DataRowRecord
+				var key interface{}
+				key, err = x.sessions[op.S].Store(ctx, cp, persistence.StorerFunc(func(_ context.Context, d ae.DataRowRecord) (interface{}, error) {
+					kept = d
+					return "k", nil
+				}))
+				if err == nil {
+					if key != "k" {
+						ob.Frame = "Store did not return the storer's key"
+					}
+					rec = &kept
+				}
+			} else {
+				rec, err = x.sessions[op.S].Encrypt(ctx, cp)
+			}
 			if !bytes.Equal(arena, before) {
 				ob.Frame = "encrypt modified the caller's payload"
 				if bytes.Equal(arena[:len(pl)], pl) {
@@ -518,7 +537,16 @@ func (x *envExec) do(op EnvOp) (ob EnvObs) {
 			}
 			r := x.applyMuts(x.recs[op.Rec], op.Muts)
 			snap := x.applyMuts(&r, nil)
-			pt, err := x.sessions[op.S].Decrypt(ctx, r)
+			var pt []byte
+			var err error
+			if op.Rec%3 == 1 {
+				// through Session.Load with a Loader that hands the record out
+				pt, err = x.sessions[op.S].Load(ctx, "k", persistence.LoaderFunc(func(_ context.Context, _ interface{}) (*ae.DataRowRecord, error) {
+					return &r, nil
+				}))
+			} else {
+				pt, err = x.sessions[op.S].Decrypt(ctx, r)
+			}
 			after := x.applyMuts(&r, nil)
 			if !recEqual(&snap, &after) {
 				ob.Frame = "decrypt modified the caller's record"
